@@ -312,3 +312,14 @@ Proof.
   unfold order_ok_other in Ho. rewrite forallb_forall in Ho. specialize (Ho p Hp).
   destruct p; try discriminate. reflexivity.
 Qed.
+
+(* ---- a failed call reaches the command's result when every site hands its result on ---- *)
+Lemma failed_call_reported_lemma : forall props outcomes,
+  all_true props = true -> length outcomes = length props ->
+  run_sites props outcomes = true -> all_true outcomes = true.
+Proof.
+  unfold all_true. induction props as [|p ps IH]; intros [|o os] Hp Hl Hr; try discriminate; [reflexivity|].
+  cbn [forallb] in Hp. apply andb_true_iff in Hp as [Hp1 Hp2]. subst p.
+  cbn [run_sites] in Hr. destruct o; [|discriminate].
+  cbn [forallb]. cbn [andb]. apply IH; auto.
+Qed.
